@@ -562,14 +562,25 @@ class Group:
             if d in ("before", "after", "before?", "after?"):
                 anchor, txt = parse_quoted_then_text(arg)
                 blines = body.split("\n")
+                occ = 0
+                om = re.search(r"@@(\d+)$", anchor)
+                if om:
+                    occ = int(om.group(1))
+                    anchor = anchor[:om.start()]
+                def _orig(l):
+                    # the source part of a line that already carries inserted hints
+                    ps = [x for x in l.split("\x01") if not x.startswith("/*VXHINT")]
+                    return ps[0] if ps else ""
                 if anchor.startswith("re:"):
-                    idx = [k for k, l in enumerate(blines) if re.search(anchor[3:], l)]
+                    idx = [k for k, l in enumerate(blines) if re.search(anchor[3:], _orig(l))]
                 else:
-                    idx = [k for k, l in enumerate(blines) if anchor in l]
-                if not idx:
+                    idx = [k for k, l in enumerate(blines) if anchor in _orig(l)]
+                if len(idx) <= occ:
                     self.lost.append({"where": fn_id, "anchor": anchor})
                     continue
-                k = idx[0]
+                k = idx[occ]
+                if om:
+                    anchor = anchor + "@@%d" % occ
                 hkey = "%s @ %s" % (fn_id, anchor)
                 if hkey in self.disabled_hints:
                     self.lost.append({"where": fn_id, "anchor": anchor, "why": "hint does not type-check on this tree"})
